@@ -784,4 +784,12 @@ def _optsmerge(ctx, R):
 
 _optsmerge.rule_id = "GEN.OPTS-MERGE"
 
-RULES = [_optsmerge, reqwidth, single, distribute_rule, stubchain_instance, stubchain, stubattrs, capacity, conserve, optflow, defaults, layeridx, reset, state_rule]
+def _layerwidth(ctx, R):
+    from .c03 import layerwidth
+    return layerwidth(ctx, R)
+
+
+_layerwidth.rule_id = "C03.LAYERWIDTH"
+
+# the capacity the layering respects is density * layerWidth with layerWidth = maxPos - minPos as Force.set_options derives it
+RULES = [_optsmerge, reqwidth, single, distribute_rule, stubchain_instance, stubchain, stubattrs, capacity, conserve, optflow, defaults, layeridx, reset, state_rule, _layerwidth]
